@@ -1,4 +1,6 @@
 import AcraModel.Typed.Row
+import AcraModel.Typed.IntCodecLemmas
+import AcraModel.Typed.Spec
 /-!
 Lemmas about the column loops of `Typed/Row.lean`: with the context handling the source has (regenerated facts) the
 outcome for column `i` of a row is the outcome of the single-column read path (`myTypedRead` / `pgTypedRead`) on
@@ -326,5 +328,99 @@ theorem pgColumnChain_fresh (c : RowColumn) (s : Setting) (d64 : Default64) (bin
   | some x =>
     simp only
     cases hsv : pgSavesEncoded s binary wire <;> cases hr : c.reveal x <;> simp
+
+/-! ### columns without a setting: the decoder → encoder subscribers relay the value -/
+
+theorem decodeEscaped_cases (d : Bytes) :
+    (∃ x, Bytea.decodeEscaped d = .ok x) ∨ Bytea.decodeEscaped d = .error .octal ∨
+      Bytea.decodeEscaped d = .error .hex := by
+  cases h : Bytea.decodeEscaped d with
+  | ok x => exact Or.inl ⟨x, rfl⟩
+  | error e => cases e <;> simp
+
+theorem pgChainNoSetting_identity (binary : Bool) (d : Bytes) :
+    pgChainNoSetting binary d = .ok d ∨
+      (Bytea.decodeEscaped d = .error .hex ∧ pgChainNoSetting binary d = .err) := by
+  unfold pgChainNoSetting pgColumnChain plainColumn
+  simp only [Ctx.fresh, Option.getD_none, emptySetting, pgDecode, pgDecodeText, pgSavesEncoded, if_true]
+  rcases decodeEscaped_cases d with ⟨x, hd⟩ | hd | hd
+  · left
+    simp [hd, pgEncode, Except.toOption]
+  · left
+    simp [hd, pgEncode, Except.toOption]
+  · right
+    simp [hd]
+
+
+theorem formatInt_ne_nil (n : Int) : formatInt n ≠ [] := by
+  unfold formatInt
+  split
+  · simp
+  · exact natDigits_ne_nil _
+
+/-- fixed-width integer column types of the MySQL binary protocol and their widths
+(TINY 1, SHORT 2, YEAR 13, INT24 9, LONG 3, LONGLONG 8) -/
+def intWidth (t : Nat) : Option Nat :=
+  if t = 1 then some 1
+  else if t = 2 ∨ t = 13 then some 2
+  else if t = 9 ∨ t = 3 then some 4
+  else if t = 8 then some 8
+  else none
+
+theorem intWidth_cases (t k : Nat) (h : intWidth t = some k) :
+    (t = 1 ∧ k = 1) ∨ (t = 2 ∧ k = 2) ∨ (t = 13 ∧ k = 2) ∨ (t = 9 ∧ k = 4) ∨ (t = 3 ∧ k = 4) ∨ (t = 8 ∧ k = 8) := by
+  unfold intWidth at h
+  by_cases h1 : t = 1
+  · rw [if_pos h1] at h; cases h; omega
+  · rw [if_neg h1] at h
+    by_cases h2 : t = 2 ∨ t = 13
+    · rw [if_pos h2] at h; cases h; omega
+    · rw [if_neg h2] at h
+      by_cases h3 : t = 9 ∨ t = 3
+      · rw [if_pos h3] at h; cases h; omega
+      · rw [if_neg h3] at h
+        by_cases h4 : t = 8
+        · rw [if_pos h4] at h; cases h; omega
+        · rw [if_neg h4] at h; cases h
+
+theorem myChainNoSetting_int (t k : Nat) (v : Bytes) (ht : intWidth t = some k) (hv : v.length = k) :
+    myChainNoSetting true t v = .ok v := by
+  have hk1 : 1 ≤ k := by rcases intWidth_cases t k ht with h | h | h | h | h | h <;> omega
+  have hne : formatInt (leToInt v) ≠ [] := formatInt_ne_nil _
+  have hemp : (formatInt (leToInt v)).isEmpty = false := by
+    cases h : formatInt (leToInt v) with
+    | nil => exact absurd h hne
+    | cons _ _ => rfl
+  have hr := leToInt_inRange v (by omega)
+  rw [hv] at hr
+  have hp : parseInt (formatInt (leToInt v)) (8 * k) = some (leToInt v) := parseInt_formatInt (8 * k) _ (by omega) hr
+  have hle : intToLE k (leToInt v) = v := by
+    have := intToLE_leToInt v (by omega)
+    rwa [hv] at this
+  have htake : v.take k = v := List.take_of_length_le (by omega)
+  unfold myChainNoSetting myColumnChain plainColumn
+  rcases intWidth_cases t k ht with ⟨rfl, rfl⟩ | ⟨rfl, rfl⟩ | ⟨rfl, rfl⟩ | ⟨rfl, rfl⟩ | ⟨rfl, rfl⟩ | ⟨rfl, rfl⟩ <;>
+    simp [Ctx.fresh, emptySetting, myDecode, myEncode, myEncodeBinaryAs, Generated.Typed.myTypeTiny,
+      Generated.Typed.myTypeShort, Generated.Typed.myTypeYear, Generated.Typed.myTypeInt24, Generated.Typed.myTypeLong,
+      Generated.Typed.myTypeLongLong, Generated.Typed.myTypeNull, hv, htake, hemp, hp, hle]
+
+
+theorem myChainNoSetting_text (t : Nat) (v : Bytes) : myChainNoSetting false t v = .ok (lenenc v) := by
+  unfold myChainNoSetting myColumnChain plainColumn
+  simp only [Ctx.fresh, Option.getD_none, emptySetting, myDecode, myEncode]
+  cases v <;> simp
+
+theorem myChainNoSetting_blob (t : Nat) (v : Bytes) (hb : blobLike t) : myChainNoSetting true t v = .ok (lenenc v) := by
+  obtain ⟨h0, h1, h2, h3, h4, h5, h6, h8, h9, h13⟩ := hb
+  unfold myChainNoSetting myColumnChain plainColumn
+  cases v with
+  | nil =>
+    simp [Ctx.fresh, emptySetting, myDecode, myEncode, Generated.Typed.myTypeTiny, Generated.Typed.myTypeShort,
+      Generated.Typed.myTypeYear, Generated.Typed.myTypeInt24, Generated.Typed.myTypeLong, Generated.Typed.myTypeLongLong,
+      h1, h2, h3, h8, h9, h13]
+  | cons a r =>
+    simp [Ctx.fresh, emptySetting, myDecode, myEncode, myEncodeBinaryAs, Generated.Typed.myTypeTiny,
+      Generated.Typed.myTypeShort, Generated.Typed.myTypeYear, Generated.Typed.myTypeInt24, Generated.Typed.myTypeLong,
+      Generated.Typed.myTypeLongLong, Generated.Typed.myTypeNull, h1, h2, h3, h6, h8, h9, h13]
 
 end AcraModel.Typed
